@@ -302,9 +302,10 @@ ImplPatternHit(r, q) ==
   ELSE IF f = "http*://" THEN TRUE
   ELSE ImplMatch(Pat(r), q)
 
-\* the code skips the domain test when the request has no source hostname
+\* without a source hostname an inclusion list is never satisfied (fix 147b55d; before it the test was skipped and
+\* the engine's answer depended on the bucket the rule was in); exclusions have nothing to exclude
 ImplDomainOK(r, q) ==
-  IF Len(q.src) = 0 THEN TRUE
+  IF Len(q.src) = 0 THEN r.dom = {}
   ELSE LET sufs == {Str(x) : x \in HostSuffixes(q.src)} IN
        (r.dom = {} \/ sufs \cap r.dom # {}) /\ (sufs \cap r.ndom = {})
 
